@@ -96,7 +96,7 @@ theorem applyRecs_branches_off (recs : List Rec) (a : Acc) :
 
 /-! ### association lists built from a list of declarations -/
 
-theorem set_append_new {α : Type} (m : List (Bytes × α)) (k : Bytes) (v : α) (h : k ∉ keys m) :
+theorem set_append_new {κ α : Type} [DecidableEq κ] (m : List (κ × α)) (k : κ) (v : α) (h : k ∉ keys m) :
     set m k v = m ++ [(k, v)] := by
   induction m with
   | nil => rfl
@@ -563,5 +563,19 @@ theorem fnOK_perm (s : Section) (recs' : List Rec) (p : s.recs.Perm recs') (h : 
 theorem wellFormed_perm (s : Section) (recs' : List Rec) (p : s.recs.Perm recs') (h : s.WellFormed) :
     ({ s with recs := recs' } : Section).WellFormed :=
   ⟨⟨h.1.1, h.1.2.1, fun r hr => h.1.2.2.1 r (p.mem_iff.mpr hr), h.1.2.2.2⟩, fnOK_perm s recs' p h.2⟩
+
+/-- names that decoding leaves alone: the reported function names are the written ones -/
+theorem fnNames_eq_written (recs : List Rec)
+    (h : ∀ st name, Rec.fn st name ∈ recs → utf8Lossy name = name) : fnNames recs = fnWrittenNames recs := by
+  induction recs with
+  | nil => rfl
+  | cons r rs ih =>
+    have ih' := ih fun st name hm => h st name (List.mem_cons_of_mem _ hm)
+    cases r
+    case fn st name =>
+      have e := h st name (by simp)
+      simp only [fnNames, fnDecls, fnWrittenNames, List.filterMap_cons, List.map_cons] at ih' ⊢
+      rw [ih', e]
+    all_goals simpa [fnNames, fnDecls, fnWrittenNames] using ih'
 
 end Grcov.Lcov
